@@ -44,6 +44,7 @@ func (S) Info() scen.Info {
 			"crash = process death: every completed syscall is durable, nothing else (no power-loss / page-cache model; fsstore documents that it does not fsync)",
 			"the kernel's tmpfs (/dev/shm) provides real rename/O_EXCL/ENOENT semantics; simos only orders, fails and kills calls",
 			"keys are ASCII alphanumerics (how arbitrary bytes map to paths is C17)",
+			"about a third of the keys are committed with two different contents of different lengths during a run; a read must return one of the complete contents committed for its key",
 			"absence of a key after an acknowledged put is not a C18 violation (property says absent-or-complete)",
 			"files in the content area that no key maps to (by the store's own Get) are not violations; leftover staging files are allowed",
 		},
@@ -54,7 +55,7 @@ func (S) Info() scen.Info {
 			"goroutine scheduling": "stub: seeded one-at-a-time scheduler, yields at every fs call",
 		},
 		QuickUnits: 1600, ThoroughUnits: 150000, QuickSecs: 45, ThoroughSecs: 1200,
-		ProbeKeys: []string{"probe.rename_enoent_mkdir", "probe.excl_retry", "probe.mkdir_eexist", "probe.rename_over_existing", "probe.temp_leftover", "probe.reader_complete", "probe.reader_absent", "probe.split_write", "probe.crash_inflight"},
+		ProbeKeys: []string{"probe.rename_enoent_mkdir", "probe.excl_retry", "probe.mkdir_eexist", "probe.rename_over_existing", "probe.temp_leftover", "probe.reader_complete", "probe.reader_absent", "probe.split_write", "probe.crash_inflight", "probe.reader_complete_two_content_key"},
 		EventsKey: "events",
 	}
 }
@@ -74,6 +75,7 @@ func shmRoot() string {
 type op struct {
 	kind   int // 0 Put, 1 PutStream, 2 PutVec, 3 Has, 4 Get, 5 GetStream, 6 Put with cancelled ctx
 	key    int
+	ver    int   // which committed content of the key (some keys are re-committed with another content)
 	pieces []int // split points for stream / vec
 	end    int   // 0 commit, 1 abort, 2 abandon
 	chunk  int   // reader chunk size
@@ -138,9 +140,22 @@ type world struct {
 	st       *sim.Stats
 	keys     []string
 	cont     [][]byte
+	alt      [][]byte // second content of a key, of another length (nil: the key only ever has one)
 	store    *fsstore.Store
 	cfg      string
 	inflight map[int]bool
+}
+
+func (w *world) content(k, ver int) []byte {
+	if ver == 1 && w.alt[k] != nil {
+		return w.alt[k]
+	}
+	return w.cont[k]
+}
+
+// complete reports whether b is one of the complete contents committed for key k.
+func (w *world) complete(k int, b []byte) bool {
+	return bytes.Equal(b, w.cont[k]) || (w.alt[k] != nil && bytes.Equal(b, w.alt[k]))
 }
 
 func (w *world) classify(b []byte) (int, bool) {
@@ -238,6 +253,15 @@ func (S) RunTape(t *sim.Tape, st *sim.Stats, keepLog bool) *sim.Outcome {
 		}
 		w.keys = append(w.keys, k)
 		w.cont = append(w.cont, genContent(t, i))
+		var alt []byte
+		if t.Pct(30, "key.twocontents") {
+			// the same key committed again with different bytes of a different length
+			alt = genContent(t, i+8)
+			if len(alt) == len(w.cont[i]) {
+				alt = append(alt, 'x')
+			}
+		}
+		w.alt = append(w.alt, alt)
 	}
 	nW := 1 + t.Choice(3, "nwriters")
 	nR := t.Choice(3, "nreaders")
@@ -252,12 +276,15 @@ func (S) RunTape(t *sim.Tape, st *sim.Stats, keepLog bool) *sim.Outcome {
 		for total < 14 && len(ops) < maxOps && t.Begin("op", cont) {
 			var p op
 			p.key = t.Choice(nkeys, "op.key")
+			if w.alt[p.key] != nil {
+				p.ver = t.Choice(2, "op.ver")
+			}
 			if ti < nW {
 				p.kind = []int{0, 0, 1, 1, 1, 2, 6}[t.Choice(7, "op.wkind")]
 				if p.kind == 1 || p.kind == 2 {
 					np := t.Choice(4, "op.npieces")
 					for j := 0; j < np; j++ {
-						p.pieces = append(p.pieces, t.Choice(len(w.cont[p.key])+1, "op.split"))
+						p.pieces = append(p.pieces, t.Choice(len(w.content(p.key, p.ver))+1, "op.split"))
 					}
 					sort.Ints(p.pieces)
 				}
@@ -428,8 +455,8 @@ func (w *world) runOps(ti int, ops []op) {
 	ctx := context.Background()
 	for _, p := range ops {
 		w.s.Yield("op")
-		key, content := w.keys[p.key], w.cont[p.key]
-		w.s.Log.Add(fmt.Sprintf("OP t%d %s", ti, p.String(w.keys)))
+		key, content := w.keys[p.key], w.content(p.key, p.ver)
+		w.s.Log.Add(fmt.Sprintf("OP t%d %s ver=%d", ti, p.String(w.keys), p.ver))
 		switch p.kind {
 		case 0:
 			w.inflight[p.key] = true
@@ -491,7 +518,7 @@ func (w *world) runOps(ti int, ops []op) {
 		case 4:
 			b, err := w.store.Get(ctx, key)
 			if err == nil {
-				w.checkRead("Get", key, b, content)
+				w.checkRead("Get", p.key, b)
 			} else {
 				w.st.Inc("probe.reader_absent")
 			}
@@ -516,18 +543,29 @@ func (w *world) runOps(ti int, ops []op) {
 			}
 			rc.Close()
 			if rerr == nil {
-				w.checkRead("GetStream", key, got, content)
+				w.checkRead("GetStream", p.key, got)
 			}
 		}
 	}
 }
 
-func (w *world) checkRead(how, key string, got, want []byte) {
-	if bytes.Equal(got, want) {
+func (w *world) checkRead(how string, k int, got []byte) {
+	if w.complete(k, got) {
 		w.st.Inc("probe.reader_complete")
+		if w.alt[k] != nil {
+			w.st.Inc("probe.reader_complete_two_content_key")
+		}
 		return
 	}
-	w.o.Fail("reader-partial", "concurrent "+how, "%s(%q) during the run returned a partial or mixed block: %s", how, key, describe(got, want))
+	w.o.Fail("reader-partial", "concurrent "+how, "%s(%q) during the run returned a partial or mixed block: %s", how, w.keys[k], w.describeK(k, got))
+}
+
+func (w *world) describeK(k int, got []byte) string {
+	s := describe(got, w.cont[k])
+	if w.alt[k] != nil {
+		s += "; against the key's other committed content: " + describe(got, w.alt[k])
+	}
+	return s
 }
 
 // recover is the new process: Init on the same directory, then the post-crash invariants.
@@ -559,11 +597,10 @@ func (w *world) recover(esc, shard, mode int) {
 		return
 	}
 	for i, key := range w.keys {
-		want := w.cont[i]
 		has, herr := st2.Has(ctx, key)
 		b, gerr := st2.Get(ctx, key)
-		if gerr == nil && !bytes.Equal(b, want) {
-			o.Fail("post-partial", "Get after restart", "Get(%q) after restart returned a partial or mixed block: %s", key, describe(b, want))
+		if gerr == nil && !w.complete(i, b) {
+			o.Fail("post-partial", "Get after restart", "Get(%q) after restart returned a partial or mixed block: %s", key, w.describeK(i, b))
 		}
 		if herr == nil && has && gerr != nil {
 			o.Fail("post-has-unreadable", "Has true but Get fails after restart", "Has(%q)=true after restart but Get fails: %v", key, gerr)
@@ -571,8 +608,8 @@ func (w *world) recover(esc, shard, mode int) {
 		if rc, serr := st2.GetStream(ctx, key); serr == nil {
 			sb, rerr := io.ReadAll(rc)
 			rc.Close()
-			if rerr == nil && !bytes.Equal(sb, want) {
-				o.Fail("post-partial", "GetStream after restart", "GetStream(%q) after restart returned a partial or mixed block: %s", key, describe(sb, want))
+			if rerr == nil && !w.complete(i, sb) {
+				o.Fail("post-partial", "GetStream after restart", "GetStream(%q) after restart returned a partial or mixed block: %s", key, w.describeK(i, sb))
 			}
 		}
 		if gerr == nil {
